@@ -101,6 +101,21 @@ def check_case(ctx, cr, out_name, rng, other_cr=None, subprocess_seeds=(1, 31337
     if is_fasta:
         for q in ("input.fa.fai", "input.fa.agp"):
             (cr["dir"] / q).unlink(missing_ok=True)
+    if is_fasta and rng.random() < 0.5:
+        # the same path held another file a moment ago, in this very process (a pipeline that indexes several
+        # versions of an assembly under one name): nothing of it may be remembered - the fresh interpreters
+        # further down know nothing about it and must write the same
+        fa = cr["assembly_file"]
+        orig = fa.read_bytes()
+        st0 = fa.stat()
+        fa.write_bytes(orig.replace(b"A", b"N").replace(b"a", b"n"))
+        os.utime(fa, (st0.st_atime, st0.st_mtime))
+        run_variant(cr, out_name, ctx, "other-content-at-same-path")
+        fa.write_bytes(orig)
+        os.utime(fa, (st0.st_atime, st0.st_mtime))
+        for q in ("input.fa.fai", "input.fa.agp"):
+            (cr["dir"] / q).unlink(missing_ok=True)
+        ctx.count("axis:other-content-at-the-same-path-earlier-in-process")
     ref = run_variant(cr, out_name, ctx, "ref")  # cold cache
     if len(ref[1]) >= 3:
         ctx.nontrivial(case["files"])
@@ -337,6 +352,7 @@ def gates(c, tier):
         "format-leg-ok": 8,
         "format-leg:region-style-names": 2,
         "axis:working-directory-and-relative-paths": 10,
+        "axis:other-content-at-the-same-path-earlier-in-process": 10,
         "asm-format-ok": 8,
         "specimens-ok": 12,
         "cases:tag-noise": 20,
